@@ -9,7 +9,7 @@ the sub-trie the first `Leaf` call jumped into, and every page left on the way l
 namespace Nomt.Walker
 open Nomt Nomt.TriePos
 
-variable {Node VH : Type} [DecidableEq Node] [DecidableEq VH] (H : Hasher Node VH)
+variable {Node VH : Type} [DecidableEq Node] [DecidableEq VH] (H : Hasher Node VH) (D : Path → Prop)
 
 /-! ## `down` -/
 
@@ -199,16 +199,16 @@ theorem preJ_mono (skip : Nat) (t : Path) (prev : Option Key) (B B' : List (Key 
 theorem tw_internal_step (hs : H.Sound) {O : List (Key × VH)} (hk : KeysOK O) (cfg : TWCfg Node) (skip : Nat)
     (a : TW Node) (P : Path) (b : Bool) (hP : P.length < 256) (hp : a.pos = P ++ [b])
     (h2 : 2 ≤ (sub O P).length)
-    (hg : Good H O a.store (P ++ [b])) (hsub : SubOK H O a.store (P ++ [b]))
+    (hg : Good H O a.store (P ++ [b])) (hsub : SubOK H D O a.store (P ++ [b]))
     (hne : sub O (P ++ [b]) ≠ [])
     (hsib : sub O (P ++ [!b]) = [] ∨
-      (sub O (P ++ [!b]) ≠ [] ∧ Good H O a.store (P ++ [!b]) ∧ SubOK H O a.store (P ++ [!b]))) :
+      (sub O (P ++ [!b]) ≠ [] ∧ Good H O a.store (P ++ [!b]) ∧ SubOK H D O a.store (P ++ [!b]))) :
     let a' := TW.visit H cfg skip a
       (.internal (specNode H O (P ++ [false])) (specNode H O (P ++ [true]))
         (H.internal (specNode H O (P ++ [false])) (specNode H O (P ++ [true]))) : WriteNode Node VH)
-    a'.pos = P ∧ Good H O a'.store P ∧ SubOK H O a'.store P ∧
+    a'.pos = P ∧ Good H O a'.store P ∧ SubOK H D O a'.store P ∧
     (∀ q, ¬ P <+: q → a'.store q = a.store q) ∧
-    (∀ e ∈ a'.log, e ∈ a.log ∨ LogOK H O e) ∧ (∀ e ∈ a.log, e ∈ a'.log) ∧ a'.cpr = a.cpr := by
+    (∀ e ∈ a'.log, e ∈ a.log ∨ LogOK H D O e) ∧ (∀ e ∈ a.log, e ∈ a'.log) ∧ a'.cpr = a.cpr := by
   intro a'
   have hnode : specNode H O P = H.internal (specNode H O (P ++ [false])) (specNode H O (P ++ [true])) := by
     unfold specNode
@@ -253,14 +253,14 @@ theorem tw_internal_step (hs : H.Sound) {O : List (Key × VH)} (hk : KeysOK O) (
     cases z
     · rfl
     · simp [TW.setSibling, hp, sibPath_snoc, upd_other _ _ _ _ hq]
-  have ha1sib : Good H O a1.store (P ++ [!b]) ∧ SubOK H O a1.store (P ++ [!b]) := by
+  have ha1sib : Good H O a1.store (P ++ [!b]) ∧ SubOK H D O a1.store (P ++ [!b]) := by
     rcases hsib with he | ⟨hne2, hg2, hs2⟩
     · have hz : z = true := hzero.mpr he
       constructor
       · show a1.store _ = _
         rw [ha1def, hz]
         simp [TW.setSibling, hp, sibPath_snoc, upd_same, specNode_nil_eq H O _ he]
-      · intro r hpre hner hlen hmean
+      · intro r hpre hner hlen hD hmean
         exact absurd hmean (not_mean_below hk (P ++ [!b]) r (by rw [he]; simp) hpre hner hlen)
     · have hz : z = false := by
         cases z
@@ -271,17 +271,17 @@ theorem tw_internal_step (hs : H.Sound) {O : List (Key × VH)} (hk : KeysOK O) (
   have ha1g : Good H O a1.store (P ++ [b]) := by
     show a1.store _ = _
     rw [ha1st _ hflip.symm]; exact hg
-  have ha1sub : SubOK H O a1.store (P ++ [b]) := by
-    intro r hpre hner hlen hmean
+  have ha1sub : SubOK H D O a1.store (P ++ [b]) := by
+    intro r hpre hner hlen hD hmean
     have : r ≠ P ++ [!b] := by
       intro e
       rw [e] at hpre
       have := not_prefix_flip P b (P ++ [!b]) hpre (List.prefix_refl _)
       exact this
-    rw [ha1st _ this]; exact hsub r hpre hner hlen hmean
+    rw [ha1st _ this]; exact hsub r hpre hner hlen hD hmean
   -- every meaningful slot strictly below P is right in a1
-  have hbelow : SubOK H O a1.store P := by
-    intro r hpre hner hlen hmean
+  have hbelow : SubOK H D O a1.store P := by
+    intro r hpre hner hlen hD hmean
     obtain ⟨b', rest, rfl⟩ := prefix_strict_cases hpre hner
     have hcases : b' = b ∨ b' = !b := by cases b <;> cases b' <;> simp
     cases rest with
@@ -293,8 +293,8 @@ theorem tw_internal_step (hs : H.Sound) {O : List (Key × VH)} (hk : KeysOK O) (
       have hl : ∀ y : Bool, P ++ b' :: x :: xs ≠ P ++ [y] := by
         intro y e; have := congrArg List.length e; simp at this
       rcases hcases with h | h <;> subst h
-      · exact ha1sub _ (snoc_prefix_of_cons P _ (x :: xs)) (hl _) hlen hmean
-      · exact ha1sib.2 _ (snoc_prefix_of_cons P _ (x :: xs)) (hl _) hlen hmean
+      · exact ha1sub _ (snoc_prefix_of_cons P _ (x :: xs)) (hl _) hlen hD hmean
+      · exact ha1sib.2 _ (snoc_prefix_of_cons P _ (x :: xs)) (hl _) hlen hD hmean
   have hupst : (a1.up).store = a1.store := by unfold TW.up; split <;> rfl
   have huppos : (a1.up).pos = P := by unfold TW.up; simp [ha1pos]
   have hupcpr : (a1.up).cpr = a.cpr := by unfold TW.up; split <;> exact ha1log.2
@@ -306,7 +306,7 @@ theorem tw_internal_step (hs : H.Sound) {O : List (Key × VH)} (hk : KeysOK O) (
   · show (a1.up.setNode _).store P = _
     simp only [TW.setNode, huppos, upd_same]
     exact hnode.symm
-  · have := subOK_upd_self H (S := O) a1.store P
+  · have := subOK_upd_self H D (S := O) a1.store P
       (H.internal (specNode H O (P ++ [false])) (specNode H O (P ++ [true]))) hbelow
     simpa [TW.setNode, huppos, hupst] using this
   · intro q hq
@@ -324,11 +324,11 @@ theorem tw_internal_step (hs : H.Sound) {O : List (Key × VH)} (hk : KeysOK O) (
       · left; rw [← ha1log.1]; exact he
       · right
         subst he
-        intro q hq hpg hq256 hmean
+        intro q hq hpg hq256 hD hmean
         have := page_members_below a1.pos q (by rw [ha1pos]; simp) hd hq hpg
         rw [ha1pos] at this
         simp only [List.dropLast_concat] at this
-        exact hbelow q this.1 this.2 hq256 hmean
+        exact hbelow q this.1 this.2 hq256 hD hmean
     · left; rw [← ha1log.1]; exact he
   · intro e he
     simp only [TW.setNode]
@@ -345,7 +345,7 @@ theorem tw_leaf_step (hs : H.Sound) {O : List (Key × VH)} (hk : KeysOK O) (cfg 
     (htP : t <+: P) (hP : P.length ≤ 256) (hsubP : sub O P = [(k, v)]) (hJ : J <+: P)
     (hpre : PreJ t.length t prev [(k, v)] J a.pos) :
     let a' := TW.visit H cfg t.length a (leafEv H t.length (P.length - t.length) prev k v)
-    a'.pos = P ∧ Good H O a'.store P ∧ SubOK H O a'.store P ∧
+    a'.pos = P ∧ Good H O a'.store P ∧ SubOK H D O a'.store P ∧
     (∀ q, ¬ J <+: q → a'.store q = a.store q) ∧ a'.log = a.log ∧ a'.cpr = a.cpr := by
   intro a'
   have hkP : P <+: k := by
@@ -356,8 +356,8 @@ theorem tw_leaf_step (hs : H.Sound) {O : List (Key × VH)} (hk : KeysOK O) (cfg 
   have hse : t.length + (P.length - t.length) = P.length := by omega
   have hgoodP : ∀ st : Store Node, st P = H.leaf k v → Good H O st P := by
     intro st h; unfold Good; rw [h, specNode_single_eq H O P (k, v) hsubP]
-  have hsubok : ∀ st : Store Node, SubOK H O st P := by
-    intro st r hpre' hner hlen hmean
+  have hsubok : ∀ st : Store Node, SubOK H D O st P := by
+    intro st r hpre' hner hlen hD hmean
     exact absurd hmean (not_mean_below hk P r (by rw [hsubP]; simp) hpre' hner hlen)
   cases prev with
   | none =>
@@ -445,8 +445,8 @@ theorem tw_visit_tree (hs : H.Sound) {O : List (Key × VH)} (hk : KeysOK O) (cfg
       PreJ t.length t prev (sub O P) J a.pos →
       let a' := TW.visitAll H cfg t.length a
         (treeEv H t.length (256 - P.length) (P.length - t.length) (sub O P) prev)
-      a'.pos = P ∧ Good H O a'.store P ∧ SubOK H O a'.store P ∧ (∀ q, ¬ J <+: q → a'.store q = a.store q) ∧
-      (∀ e ∈ a'.log, e ∈ a.log ∨ LogOK H O e) ∧ (∀ e ∈ a.log, e ∈ a'.log) ∧ a'.cpr = a.cpr := by
+      a'.pos = P ∧ Good H O a'.store P ∧ SubOK H D O a'.store P ∧ (∀ q, ¬ J <+: q → a'.store q = a.store q) ∧
+      (∀ e ∈ a'.log, e ∈ a.log ∨ LogOK H D O e) ∧ (∀ e ∈ a.log, e ∈ a'.log) ∧ a'.cpr = a.cpr := by
   intro f
   induction f with
   | zero =>
@@ -458,7 +458,7 @@ theorem tw_visit_tree (hs : H.Sound) {O : List (Key × VH)} (hk : KeysOK O) (cfg
     | [(k, v)], _, _ =>
       rw [hB] at hpre
       simp only [treeEv_single, TW.visitAll]
-      obtain ⟨r1, r2, r3, r4, r5, r6⟩ := tw_leaf_step H hs hk cfg t P prev J a k v htP hP hB hJ hpre
+      obtain ⟨r1, r2, r3, r4, r5, r6⟩ := tw_leaf_step H D hs hk cfg t P prev J a k v htP hP hB hJ hpre
       exact ⟨r1, r2, r3, r4, fun e he => Or.inl (by rw [← r5]; exact he), fun e he => by rw [r5]; exact he, r6⟩
   | succ f ih =>
     intro P prev J a hf htP hP hne hJ hpre
@@ -466,7 +466,7 @@ theorem tw_visit_tree (hs : H.Sound) {O : List (Key × VH)} (hk : KeysOK O) (cfg
     | [(k, v)], _ =>
       rw [hB] at hpre
       simp only [treeEv_single, TW.visitAll]
-      obtain ⟨r1, r2, r3, r4, r5, r6⟩ := tw_leaf_step H hs hk cfg t P prev J a k v htP hP hB hJ hpre
+      obtain ⟨r1, r2, r3, r4, r5, r6⟩ := tw_leaf_step H D hs hk cfg t P prev J a k v htP hP hB hJ hpre
       exact ⟨r1, r2, r3, r4, fun e he => Or.inl (by rw [← r5]; exact he), fun e he => by rw [r5]; exact he, r6⟩
     | x :: y :: rest, _ =>
       have h2 : 2 ≤ (sub O P).length := by rw [hB]; simp
@@ -491,7 +491,7 @@ theorem tw_visit_tree (hs : H.Sound) {O : List (Key × VH)} (hk : KeysOK O) (cfg
         rw [hpo]
         obtain ⟨p1, p2, p3, p4, p5, p6, p7⟩ := ih (P ++ [true]) prev J a (hf' true) (htP' true) (hP' true) h1 (hJ' true)
           (preJ_mono _ _ _ _ _ _ _ hpre (hmono true))
-        obtain ⟨q1, q2, q3, q4, q5, q6, q7⟩ := tw_internal_step H hs hk cfg t.length _ P true hPlt p1 h2 p2 p3 h1
+        obtain ⟨q1, q2, q3, q4, q5, q6, q7⟩ := tw_internal_step H D hs hk cfg t.length _ P true hPlt p1 h2 p2 p3 h1
           (Or.inl (by simpa using h0))
         refine ⟨q1, q2, q3, ?_, ?_, ?_, by rw [q7, p7]⟩
         · intro q hq; rw [q4 q (hJout q hq), p4 q hq]
@@ -506,7 +506,7 @@ theorem tw_visit_tree (hs : H.Sound) {O : List (Key × VH)} (hk : KeysOK O) (cfg
           simp only [TW.visitAll]
           obtain ⟨p1, p2, p3, p4, p5, p6, p7⟩ := ih (P ++ [false]) prev J a (hf' false) (htP' false) (hP' false) h0
             (hJ' false) (preJ_mono _ _ _ _ _ _ _ hpre (hmono false))
-          obtain ⟨q1, q2, q3, q4, q5, q6, q7⟩ := tw_internal_step H hs hk cfg t.length _ P false hPlt p1 h2 p2 p3 h0
+          obtain ⟨q1, q2, q3, q4, q5, q6, q7⟩ := tw_internal_step H D hs hk cfg t.length _ P false hPlt p1 h2 p2 p3 h0
             (Or.inl (by simpa using h1))
           refine ⟨q1, q2, q3, ?_, ?_, ?_, by rw [q7, p7]⟩
           · intro q hq; rw [q4 q (hJout q hq), p4 q hq]
@@ -572,14 +572,14 @@ theorem tw_visit_tree (hs : H.Sound) {O : List (Key × VH)} (hk : KeysOK O) (cfg
             apply r4
             have := not_prefix_flip P false q hq
             simpa using this
-          obtain ⟨q1, q2, q3, q4, q5, q6, q7⟩ := tw_internal_step H hs hk cfg t.length _ P true hPlt r1 h2 r2 r3 h1
+          obtain ⟨q1, q2, q3, q4, q5, q6, q7⟩ := tw_internal_step H D hs hk cfg t.length _ P true hPlt r1 h2 r2 r3 h1
             (Or.inr ⟨by simpa using h0, by
               show _ = _
               simp only [Bool.not_true]
               rw [hkeep _ (List.prefix_refl _)]; exact p2, by
-              intro r hpre' hner hlen hmean
+              intro r hpre' hner hlen hD hmean
               simp only [Bool.not_true] at hpre' hner ⊢
-              rw [hkeep _ hpre']; exact p3 r hpre' hner hlen hmean⟩)
+              rw [hkeep _ hpre']; exact p3 r hpre' hner hlen hD hmean⟩)
           refine ⟨q1, q2, q3, ?_, ?_, ?_, by rw [q7, r7, p7]⟩
           · intro q hq
             rw [q4 q (hJout q hq), r4 q (fun h => hJout q hq (List.IsPrefix.trans (List.prefix_append _ _) h)), p4 q hq]
